@@ -57,6 +57,12 @@ CONSTANTS NT,         \* threads 1..NT
           NK,         \* keys 1..NK
           Sizes,      \* value v in 1..Len(Sizes) has size Sizes[v]
           Cap,        \* capacity
+          Scale,      \* a string: decimal uint64 factor by which the driver multiplies every size and
+                      \* the capacity ("1" = as is).  The model and LRUProps work in units; a linear
+                      \* scaling preserves every sum and comparison of the abstract LRU exactly, while
+                      \* the code's uint64 arithmetic runs near 2^64 (capacity = math.MaxUint64 for
+                      \* Cap = 3, Scale = "6148914691236517205").  The driver reports a size that is
+                      \* not a multiple of the factor as NOTMULT.
           MaxEl,      \* element ids 1..MaxEl (re-used when unreferenced)
           MaxPoison,  \* how many values may start failing
           InitLists,  \* set of pre-loaded contents (sequences of <<k,v>>, MRU first)
@@ -104,7 +110,7 @@ Fresh(s)  == CHOOSE e \in Pool \ LiveOf(s) : \A f \in Pool \ LiveOf(s) : e <= f
 \* Observables (and the internal projection used for drift) of a state record.
 ObsOf(s) ==
   LET fr == IF s.mtx = 0 THEN 1 ELSE 0
-  IN  [cap   |-> Cap, sizes |-> Sizes, free |-> fr,
+  IN  [cap   |-> Cap, sizes |-> Sizes, scale |-> Scale, free |-> fr,
        len   |-> IF fr = 1 THEN Len(s.ll) ELSE NA,
        size  |-> IF fr = 1 THEN s.size ELSE NA,
        range |-> [k \in Keys |-> IF s.index[k] = 0 THEN 0 ELSE s.elems[s.index[k]].v],
